@@ -349,6 +349,7 @@ def runOp (env : Env RW) (s : Sess) (w : RW) (toks : List String) : Option (Sess
     | "c" :: _ => s.client.isNone
     | "k" :: _ => s.cons.isNone
     | ["poll"] => s.cons.isNone
+    | ["poll_keep"] => s.cons.isNone
     | "seek" :: _ => s.cons.isNone
     | "consume" :: _ => s.cons.isNone
     | ["commit"] => s.cons.isNone
@@ -405,6 +406,17 @@ def runOp (env : Env RW) (s : Sess) (w : RW) (toks : List String) : Option (Sess
     | _, _ => none
   | tgt :: "fetch_messages" :: args =>
     (parseFetchArgs args).bind fun args => (withClient s w tgt (fetchMessages env args)).map fun (s, w, o) => (s, w, outStr fmtFetch o)
+  -- results kept alive by the harness (C18): at the value level the same calls; re-reading a live result shows what it showed
+  | tgt :: "fetch_keep" :: args =>
+    (parseFetchArgs args).bind fun args => (withClient s w tgt (fetchMessages env args)).map fun (s, w, o) => (s, w, outStr fmtFetch o)
+  | ["poll_keep"] =>
+    s.cons.map fun k =>
+      let (wc, o) := poll env ⟨w, k⟩
+      ({ s with cons := some wc.cons }, wc.world, outStr fmtPoll o)
+  | ["keep_check"] => some (s, w, "ok")
+  | ["keep_move", _] => some (s, w, "ok")
+  | ["keep_drop", _] => some (s, w, "ok")
+  | ["churn", _] => some (s, w, "ok")
   | tgt :: "produce" :: acks :: secs :: nanos :: args =>
     match acks.toInt?, secs.toNat?, nanos.toNat?, parseProduceArgs args with
     | some acks, some secs, some nanos, some args =>
